@@ -38,6 +38,8 @@ Definition judge_ilp (c : c05ilp) : nat :=
     && is_partition_of (seq 0 n) (i_P c) && no_back_arcs K (i_P c)
     && wf_cons n cons
     && (score K cons =? obj_value K n v)
+    (* the remaining assumption of C05_ilp_optimal, tested where the brute force is cheap: the answer is optimal *)
+    && ((5 <? n)%nat || (obj_value K n v =? opt K (seq 0 n)))
     && match i_score c with Some sc => sc =? obj_value K n v | None => Nat.leb n 1 || (obj_value K n v =? 0) end in
   code m spec.
 Definition show_ilp (c : c05ilp) :=
